@@ -391,10 +391,16 @@ class Tracer:
                     T.cur_send[ident] = message
                     if type(message).__name__ == "QMI_SignalMessage" and message.args:
                         T.ev("tx", T.cid(self.context_name), message.args[0], message.destination_address.context_id)
+                    c = T.cid(self.context_name)
                     if self._thread is None or self._socket_manager is None:
                         # the router is being stopped: send_message raises before it takes the socket-manager lock;
                         # the model has the same step (`sendChk` with `routerDown`) in the lock class S
-                        T.on_lock("S", T.cid(self.context_name))
+                        T.on_lock("S", c)
+                    else:
+                        # the router is read as active here, outside any lock; has_peer_context follows later
+                        sc = T.cur_scope()
+                        if sc is not None and sc[1] == c:
+                            T.emit(f"rok {T.th(sc)}", "ok router-ok", "full", c)
                 try:
                     return orig(self, message)
                 finally:
